@@ -123,7 +123,41 @@ def expected(f, refsite, parts, target):
         start = start[:-1]
 
 
-def world():
+class Package:
+    """container-like user class: a package without members is falsy"""
+
+    def __init__(self, **kw):
+        self.__dict__.update(kw)
+
+    def __len__(self):
+        return len(self.packages) + len(self.classes)
+
+
+class Class:
+    """user class that is always falsy (it has no members at all)"""
+
+    def __init__(self, **kw):
+        self.__dict__.update(kw)
+
+    def __len__(self):
+        return 0
+
+
+def world(user=False):
+    if user:
+        if "mm-user" not in _S:
+            from textx import metamodel_from_str, get_model, get_children
+            from textx.scoping.providers import FQN
+
+            mmu = metamodel_from_str(GRAMMAR, classes=[Package, Class])
+
+            def by_uid_u(obj, attr, obj_ref):
+                uid = int(obj_ref.obj_name)
+                r = get_children(lambda x: getattr(x, "uid", None) == uid, get_model(obj))
+                return r[0] if r else None
+            mmu.register_scope_providers({"*.t": FQN(), "*.link": by_uid_u})
+            _S["mm-user"] = mmu
+        return _S["mm-user"]
     if "mm" not in _S:
         from textx import metamodel_from_str
         from textx.scoping.providers import FQN
@@ -149,10 +183,10 @@ def obj_at(m, path):
     return o
 
 
-def run_case(f, link, refsite, parts, target):
+def run_case(f, link, refsite, parts, target, user=False):
     from textx.exceptions import TextXSemanticError
 
-    mm = world()
+    mm = world(user)
     ids = {p: i + 1 for i, (p, k, n) in enumerate(flatten(f))}
     reftext = {"Class": "rc", "Package": "rp", "Named": "rn"}[target] + " " + ".".join(parts)
     text = render(f, ids, link, refsite, reftext)
@@ -194,11 +228,18 @@ def work(arg):
                         cid = [f, link, site, parts, target]
                         with watchdog(10):
                             ok, obs = run_case(f, link, site, parts, target)
+                        if ok and link is None and len(nodes) <= 3:
+                            # the same with user classes whose instances are falsy (containers without members)
+                            with watchdog(10):
+                                ok, obs = run_case(f, link, site, parts, target, True)
+                            obs["user_classes_with_len"] = True
+                            cid = cid + ["falsy user classes"]
                         u.case(cid, nontrivial=True, sample=obs if link and len(parts) > 1 and obs["expected_path"] else None)
                         u.count("expected:" + ("resolve" if obs["expected_path"] is not None else "unknown"))
                         if not ok:
                             key = classify(f, link, site, parts, target, obs)
-                            u.fail(cid, {"forest": f, "link": link, "site": site, "parts": parts, "target": target}, key=key,
+                            u.fail(cid, {"forest": f, "link": link, "site": site, "parts": parts, "target": target, "user": obs.get("user_classes_with_len", False)}, key=key,
+                                   sig="falsy user classes" if obs.get("user_classes_with_len") else None,
                                    what="%s expected %s observed %s" % (obs["text"], obs.get("expected_uid", obs["expected_path"]), obs["observed"]))
     return u
 
@@ -235,4 +276,4 @@ def run(ctx):
 
 def replay(p):
     link = tup(p["link"]) if p["link"] else None
-    return run_case(tup(p["forest"]), link, tup(p["site"]), tup(p["parts"]), p["target"])
+    return run_case(tup(p["forest"]), link, tup(p["site"]), tup(p["parts"]), p["target"], p.get("user", False))
